@@ -323,6 +323,13 @@ def harness_for(cfg):
                 visible.extend(new_names)
                 if wname is None:
                     anon.append((sub, list(new_names)))
+                # whatever its kind, a map that has been added as a window takes no further names (they would bypass
+                # the parent's checks)
+                try:
+                    sub.add_resource(Res(), name=("zz-late",), size=1)
+                    E.prove(False, "a map that was added as a window still accepts new names")
+                except ValueError:
+                    pass
             except TypeError:
                 E.observe("internal-error")
                 E.prove(False, "a well-formed window name makes add_window fail with an internal TypeError")
